@@ -19,6 +19,7 @@ import concurrent.futures as cf
 import hashlib
 import importlib
 import inspect
+import itertools
 import json
 import os
 import shutil
@@ -260,6 +261,7 @@ def main(argv: list[str] | None = None) -> int:
 
     scratch = tempfile.mkdtemp(prefix="vf_")
     grids: dict[str, dict] = {}
+    split_parents: list[str] = []
     try:
         with cf.ThreadPoolExecutor(max_workers=max(1, a.jobs)) as ex:
             # longest first
@@ -268,6 +270,23 @@ def main(argv: list[str] | None = None) -> int:
             gfuts = {c.name: ex.submit(run_grid, c, tier, scratch) for c in conds if c.grid}
             for f in futs:
                 f.result()
+            # second wave (thorough tier only): a main-pass task that ran out of time is split on the
+            # condition's `split` parameters; its sub-tasks (same budget each) replace it
+            sub: list[Task] = []
+            for t in list(tasks):
+                if tier == "thorough" and t.mode == "main" and not t.c.twin and t.c.split and t.result.get("status") == "unknown":
+                    keys = [k for k in t.c.split if k not in t.shard]
+                    if not keys:
+                        continue
+                    for combo in itertools.product(*[t.c.split[k] for k in keys]):
+                        sh = dict(t.shard)
+                        sh.update(dict(zip(keys, combo)))
+                        sub.append(Task(t.c, sh, t.mode, t.extra_pre, tier))
+                    tasks.remove(t)
+                    split_parents.append(gen.wrapper_name(t.c, t.shard, t.mode))
+            for f in [ex.submit(run_task, t, scratch) for t in sub]:
+                f.result()
+            tasks.extend(sub)
             for n, f in gfuts.items():
                 grids[n] = f.result()
 
@@ -436,6 +455,7 @@ def main(argv: list[str] | None = None) -> int:
                     "solver_seconds": round(z3s, 2),
                     "confirmed": n_conf,
                     "inconclusive": inconclusive,
+                    "split_after_timeout": split_parents,
                     "harness_errors": harness_errors,
                     "known_findings_reported": known_lines,
                     "native_grid_points": grid_points,
